@@ -64,7 +64,8 @@ MUTANTS += [
          old='    number_text[is_positive & has_digits, 0] = "0"\n    number_text = as_encoded_array(number_text, DigitEncoding)',
          new='    number_text[is_positive & has_digits, 0] = "1"\n    number_text = as_encoded_array(number_text, DigitEncoding)'),
     dict(prop="C02", name="comment-lines-offset", file=DLB,
-         old="        comment_mask = np.flatnonzero(comment_mask)\n", new="        comment_mask = np.flatnonzero(comment_mask)[:2]\n"),
+         old="        in_comment = (data[line_starts] == cls.COMMENT)[line_of_delimiter]\n",
+         new="        in_comment = (data[line_starts] == cls.COMMENT)[line_of_delimiter] & (line_of_delimiter < 4)\n"),
 ]
 
 NDR = "bionumpy/io/npdataclassreader.py"
@@ -293,7 +294,7 @@ MUTANTS += [
     dict(prop="C08", name="jaccard-denominator", file=SIM,
          old="    return float(a/(N-d))", new="    return float(a/(N-d+(d == 1)))"),
     dict(prop="C08", name="clip-start-only", file=IV,
-         old="        stop=np.minimum(chrom_sizes, intervals.stop))", new="        stop=np.minimum(chrom_sizes + 1, intervals.stop))"),
+         old="        stop=np.clip(intervals.stop, 0, chrom_sizes))", new="        stop=np.clip(intervals.stop, 0, chrom_sizes + 1))"),
     dict(prop="C08", name="mask-sorted-by-stop", file=IV,
          old="    merged = merge_intervals(intervals[np.argsort(intervals.start)])", new="    merged = merge_intervals(intervals[np.argsort(intervals.start, kind='stable')][::1] if len(intervals) < 3 else intervals[np.lexsort((intervals.start, intervals.stop))])"),
 ]
@@ -569,8 +570,8 @@ MUTANTS += [
     dict(prop="C20", name="make-contiguous-in-place (seeded C04-a)", file=FB,
          old="        self._field_starts = self._field_starts - offsets[:, None]", new="        self._field_starts -= offsets[:, None]"),
     dict(prop="C20", name="clip-in-place", file=IV,
-         old="        start=np.maximum(0, intervals.start),\n        stop=np.minimum(chrom_sizes, intervals.stop))",
-         new="        start=np.maximum(0, intervals.start),\n        stop=np.minimum(chrom_sizes, intervals.stop, out=intervals.stop))"),
+         old="        start=np.clip(intervals.start, 0, chrom_sizes),\n        stop=np.clip(intervals.stop, 0, chrom_sizes))",
+         new="        start=np.clip(intervals.start, 0, chrom_sizes),\n        stop=np.clip(intervals.stop, 0, chrom_sizes, out=intervals.stop))"),
     dict(prop="C20", name="sort-by-in-place", file=BDC,
          old="        return self[np.argsort(getattr(self, field_name))]", new="        getattr(self, field_name).sort()\n        return self"),
     dict(prop="C20", name="complement-lookup-mutated", file=DNA,
